@@ -136,7 +136,7 @@ def file_task(task):
                     size = len(members[cid])
                     p = op
                     if cl_probs is not None:
-                        p = cl_probs[cid % len(cl_probs)]
+                        p = cl_probs[cid % len(cl_probs)]  # same rule as inputs.make_clusters
                         if op == 0:
                             p = 0.0
                         elif p == 0:
